@@ -5,6 +5,7 @@ import (
 	"context"
 	"encoding/json"
 	"fmt"
+	"github.com/scionproto/scion/private/underlay/conn"
 	"math/rand/v2"
 	"net/netip"
 	"os"
@@ -160,6 +161,19 @@ func checkC17(r *mon.Run) {
 		}
 		c17Spy(r, w)
 	}
+	// fault path: the first attempt to open one of the sockets fails (address
+	// in use, descriptor limit, ...). Configuration may fail as a whole; every
+	// socket that IS opened, at the first or a later attempt, must still be
+	// opened with the configured sizes.
+	nf := r.Pick(120, 1200)
+	for i := 0; i < nf; i++ {
+		w := genCfg(rng)
+		w.Order = rfix.LocalOrder(i % int(rfix.NumLocalOrders)).String()
+		w.Range = "31000-32767"
+		w.Reuse = (i/4)%2 == 0
+		c17Sizes(rng, w)
+		c17OpenFault(r, rng, w)
+	}
 	minEv := int64(n * 4)
 	events := []string{"open_internal_ok_or_judged", "open_external_ok_or_judged", "open_sibling_ok_or_judged", "factory_external_judged", "factory_sibling_judged"}
 	// real sockets under strace: a few child runs in the quick tier too, because some
@@ -168,7 +182,7 @@ func checkC17(r *mon.Run) {
 	for i := 0; i < nb; i++ {
 		c17Strace(r, rng, i)
 	}
-	events = append(events, "strace_socket_judged")
+	events = append(events, "strace_socket_judged", "open_fault_injected", "open_after_fault_judged")
 	r.Require(minEv, 12, events...)
 }
 
@@ -516,5 +530,58 @@ func c17Strace(r *mon.Run, rng *rand.Rand, idx int) {
 		if !found[k] {
 			r.Inconclusive("strace-socket-not-found-" + k)
 		}
+	}
+}
+
+// faultOpener fails the failAt-th Open once and records the configuration of
+// every Open that succeeds.
+type faultOpener struct {
+	reuse  bool
+	failAt int
+	n      int
+	failed bool
+	opens  *[]rfix.OpenRecord
+}
+
+func (o *faultOpener) Open(l, r netip.AddrPort, c *conn.Config) (router.BatchConn, error) {
+	o.n++
+	if o.n == o.failAt && !o.failed {
+		o.failed = true
+		return nil, fmt.Errorf("listen udp %s: bind: address already in use (injected)", l)
+	}
+	*o.opens = append(*o.opens, rfix.OpenRecord{Local: l, Remote: r, Cfg: *c})
+	return rfix.NopOpener{}.Open(l, r, c)
+}
+
+func (o *faultOpener) UDPCanReuseLocal() bool { return o.reuse }
+
+func c17OpenFault(r *mon.Run, rng *rand.Rand, w *cfgW) {
+	var opens []rfix.OpenRecord
+	op := &faultOpener{reuse: w.Reuse, failAt: 1 + rng.IntN(8), opens: &opens}
+	lc := w.local()
+	lc.Opener = op
+	_, err := rfix.NewLocalStar(lc)
+	if !op.failed {
+		return // fewer sockets than failAt
+	}
+	r.Event("open_fault_injected")
+	outcome := "configured"
+	if err != nil {
+		outcome = "configuration-failed"
+	}
+	r.Class(fmt.Sprintf("open-fault/%s/reuse=%v/at=%d/%s", w.Order, w.Reuse, min(op.failAt, 4), outcome))
+	intAddr := rfix.SiblingAddr(0)
+	sibs := map[netip.AddrPort]bool{rfix.SiblingAddr(1): true, rfix.SiblingAddr(2): true}
+	for _, o := range opens {
+		kind := "external"
+		switch {
+		case !o.Remote.IsValid():
+			kind = "internal"
+		case sibs[o.Remote] && o.Local == intAddr:
+			kind = "sibling"
+		}
+		r.Event("open_after_fault_judged")
+		c17Verdict(r, w, "ConnOpener.Open of the "+kind+" link's socket (an earlier Open failed)", kind+"/after-open-failure", o.Cfg.ReceiveBufferSize, o.Cfg.SendBufferSize,
+			c17W{Local: o.Local.String(), Remote: o.Remote.String()})
 	}
 }
